@@ -50,7 +50,10 @@ where
         let (f_val, f_deriv_val) = poly.evaluate_derivative(guess);
         let new_guess = guess - (f_val / f_deriv_val);
         let new_norm = new_guess.abs();
-        if ((norm - new_norm) / norm).abs() <= tol || new_norm <= tol {
+        // Converged when the update itself is short (relative to the iterate, or
+        // absolutely near the origin), not when the modulus happens to be preserved.
+        let shift_norm = (new_guess - guess).abs();
+        if shift_norm <= tol * norm || shift_norm <= tol {
             return Ok(new_guess);
         }
 
